@@ -3,11 +3,13 @@
    The framework read from a well-formed file is [apx_result decls pairs]; its arguments are the
    first occurrences of the declared labels (ids 0, 1, 2, ...), its attacks the declared label pairs.
 
-   Caveat about Model/Cli.v (not about crustabri): [Cli.apx_instance] uses the label, a list of
-   Unicode code points, as the bytes printed and compares the `-a` operand with it directly.  This is
-   the UTF-8 byte string only for ASCII labels; Aspartix identifiers may contain non-ASCII decimal
-   digits (the `\d` of the regex crate is Unicode), for which the model of the command line is not
-   byte-faithful.  The theorems below are statements about the model as it is. *)
+   Labels are lists of Unicode code points (Rust Strings): [Cli.apx_instance] prints a label as its
+   UTF-8 encoding and UTF-8 decodes the `-a` operand before looking it up.  All statements hold for
+   every identifier the Aspartix reader accepts ([_[:alpha:]][_[:alpha:]\d]* with the Unicode `\d`),
+   ASCII or not; [apx_labels_invertible] / [apx_file_reads_back]: the printed labels are read back
+   (UTF-8 decoding + lookup) to the same arguments.
+   (History: before the repair of Model/Cli.v the instance printed the code points themselves as
+   bytes, which was the UTF-8 text for ASCII labels only.) *)
 From Coq Require Import String Ascii NArith List Bool Lia ZifyBool.
 From Crusta Require Import Spec.AF Sat.Cnf Sat.Prog Model.Solvers Spec.IoSpec Model.Cli.
 From Crusta Require Import Proofs.SolverBasics Proofs.IoBase Proofs.StoreProofs Proofs.ReadersProofs
@@ -111,8 +113,9 @@ Theorem apx_instance_facts :
   (forall a b, att F a b -> a < length labels /\ b < length labels) /\
   (forall a b la lb, nth_error labels a = Some la -> nth_error labels b = Some lb ->
                      (att F a b <-> In (la, lb) pairs)) /\
-  (forall id l, nth_error labels id = Some l -> i_label i id = l) /\
-  (forall w id, i_arg i w = Some id <-> nth_error labels id = Some w).
+  (forall id l, nth_error labels id = Some l -> i_label i id = utf8_encode l) /\
+  (forall w id, i_arg i w = Some id <->
+                exists l, utf8_decode w = Some l /\ nth_error labels id = Some l).
 Proof using Hdecl.
   intros i F.
   assert (Hargs : args F = seq 0 (length labels)).
@@ -137,11 +140,49 @@ Proof using Hdecl.
       { apply (proj1 (NoDup_nth_error labels) Hnd); [apply nth_error_Some; congruence|congruence]. }
       subst a' b'. exact Hab.
   - intros id l Hid. unfold i. cbn [apx_instance i_label].
-    rewrite (label_of_numbered (L := bytes) fr labels id l apx_result_args Hid). reflexivity.
-  - intros w id. unfold i. cbn [apx_instance i_arg]. rewrite get_argument_beqb.
-    rewrite (find_label_iff fr w id apx_result_inv), apx_result_args. apply In_numbered0.
+    rewrite (label_of_numbered (L := str) fr labels id l apx_result_args Hid). reflexivity.
+  - intros w id. unfold i. cbn [apx_instance i_arg]. destruct (utf8_decode w) as [l|].
+    + unfold get_argument. rewrite (find_label_iff fr l id apx_result_inv), apx_result_args, In_numbered0.
+      split; [intros H; exists l; split; [reflexivity|exact H]|].
+      intros (l' & E & H). injection E as <-. exact H.
+    + split; [discriminate|]. intros (l' & E & _). discriminate.
+Qed.
+
+(* every declared label is an identifier: then the printed labels are invertible *)
+Hypothesis Hident : Forall (fun l => is_ident l = true) decls.
+
+Lemma apx_labels_ident : forall id l, nth_error labels id = Some l -> WritersProofs.label_ok l.
+Proof using Hident.
+  intros id l Hn. apply ident_label_ok. apply nth_error_In in Hn. unfold labels in Hn.
+  apply dedup_sub in Hn. rewrite Forall_forall in Hident. exact (Hident l Hn).
+Qed.
+
+Theorem apx_labels_invertible :
+  let i := apx_instance fr in
+  (forall id l, nth_error labels id = Some l -> i_arg i (utf8_encode l) = Some id) /\
+  (forall id, id < length labels -> CliProofs.label_ok WApx (i_label i) (i_arg i) id).
+Proof using Hdecl Hident.
+  intros i. destruct apx_instance_facts as (_ & _ & _ & _ & Hlab & Harg). fold i in Hlab, Harg.
+  assert (H1 : forall id l, nth_error labels id = Some l -> i_arg i (utf8_encode l) = Some id).
+  { intros id l Hn. apply Harg. exists l. split; [|exact Hn].
+    destruct (apx_labels_ident id l Hn) as (_ & Hs & _). apply utf8_roundtrip. exact Hs. }
+  split; [exact H1|]. intros id Hid.
+  destruct (nth_error labels id) as [l|] eqn:Hn; [|apply nth_error_None in Hn; lia].
+  destruct (apx_labels_ident id l Hn) as (Hne & Hs & H44 & H10).
+  unfold CliProofs.label_ok. rewrite (Hlab id l Hn). split; [exact (H1 id l Hn)|].
+  split; [apply encode_nonnil; exact Hne|]. split.
+  - apply encode_no_byte; [reflexivity|exact H10].
+  - apply encode_no_byte; [reflexivity|exact H44].
 Qed.
 End Result.
+
+Lemma decl_labels_ident : forall f, apx_file_ok f -> Forall (fun l => is_ident l = true) (decl_labels f).
+Proof.
+  intros f [Hd _]. unfold decl_labels. apply Forall_forall. intros l Hl. apply in_flat_map in Hl.
+  destruct Hl as [it [Hit Hl]]. rewrite Forall_forall in Hd. specialize (Hd it Hit).
+  destruct it as [sp|al]; cbn [In] in Hl; [destruct Hl|]. destruct Hl as [<-|[]].
+  cbn [decl_item_ok] in Hd. exact (proj1 (proj2 (proj2 Hd))).
+Qed.
 
 Lemma apx_input_faithful : forall f eols fnl,
   apx_file_ok f -> final_ok (apx_file_lines f) fnl ->
@@ -171,9 +212,10 @@ Theorem apx_file_correct : forall o f eols fnl i q s al,
    (forall a b, att F a b -> a < length labels /\ b < length labels) /\
    (forall a b la lb, nth_error labels a = Some la -> nth_error labels b = Some lb ->
                       (att F a b <-> In (la, lb) (att_pairs f)))) /\
-  (* labels printed, query argument *)
-  (forall id l, nth_error labels id = Some l -> i_label i id = l) /\
-  (forall a, In a al -> exists w, o_arg o = Some w /\ nth_error labels a = Some w) /\
+  (* labels printed in UTF-8; the query argument is the one whose label the -a operand encodes *)
+  (forall id l, nth_error labels id = Some l -> i_label i id = utf8_encode l) /\
+  (forall a, In a al -> exists w l, o_arg o = Some w /\ utf8_decode w = Some l /\
+                                    nth_error labels a = Some l) /\
   match run_traced oracle thr d fuel o (apx_input bytes) with
   | (Exit0 out, log) =>
       (exists oc, out = render WApx (i_label i) oc /\ answer_ok q s (o_cert o) F al oc) /\
@@ -195,18 +237,68 @@ Proof.
   destruct (validate_inr o _ i q s al V) as (_ & Hi & _ & Ha).
   assert (Ei : i = apx_instance (apx_result (decl_labels f) (att_pairs f))) by congruence.
   rewrite <- Ei in Hvg, Hlab, Harg.
-  assert (Hal : forall a, In a al -> exists w, o_arg o = Some w /\ nth_error labels a = Some w).
+  assert (Hal : forall a, In a al -> exists w l, o_arg o = Some w /\ utf8_decode w = Some l /\
+                                               nth_error labels a = Some l).
   { intros a Hina. destruct (o_arg o) as [w|].
-    - destruct Ha as (id & Hid & Hal). exists w. split; [reflexivity|]. apply Harg in Hid.
-      destruct q; subst al; cbn [In] in Hina; try contradiction; destruct Hina as [<-|[]]; exact Hid.
+    - destruct Ha as (id & Hid & Hal). apply Harg in Hid. destruct Hid as (l & Hdec & Hn).
+      exists w, l. split; [reflexivity|]. split; [exact Hdec|].
+      destruct q; subst al; cbn [In] in Hina; try contradiction; destruct Hina as [<-|[]]; exact Hn.
     - destruct Ha as [_ ->]. destruct Hina. }
   split; [split; [exact Hargs|split; [exact Hlt|exact Hatt]]|]. split; [exact Hlab|]. split; [exact Hal|].
   assert (Hal' : forall a, In a al -> In a (args F)).
-  { intros a Hina. destruct (Hal a Hina) as (w & _ & Hn). rewrite Hargs. apply in_seq.
+  { intros a Hina. destruct (Hal a Hina) as (w & l & _ & _ & Hn). rewrite Hargs. apply in_seq.
     assert (a < length labels) by (apply nth_error_Some; congruence). lia. }
   pose proof (all_problems_correct oracle thr d fuel o (apx_input bytes) i q s al F
                 Hvalid Hthr Hvg Hal' V) as H.
   rewrite Hr in H. exact H.
+Qed.
+
+(* the answer printed on a well-formed Aspartix file can be read back: splitting the lines, the
+   commas, UTF-8 decoding every label and looking it up ([i_arg], as for the -a operand) gives an
+   outcome that the semantics dictate; for ALL identifier labels, ASCII or not *)
+Lemma answer_ok_kind : forall q s cert F al oc, answer_ok q s cert F al oc -> kind_ok q oc.
+Proof. intros q s cert F al oc H. destruct q, oc as [r|b c]; cbn [answer_ok kind_ok] in *; try exact I; exact H. Qed.
+Lemma answer_ok_args : forall q s cert F al oc, answer_ok q s cert F al oc ->
+  forall a, In a (outcome_args oc) -> In a (args F).
+Proof.
+  intros q s cert F al oc H a Ha.
+  destruct q, oc as [[L|]|b [L|]]; cbn [answer_ok outcome_args] in *; try contradiction.
+  - destruct H as (_ & _ & Hi). exact (Hi a Ha).
+  - destruct H as (_ & _ & _ & _ & _ & Hi & _). exact (Hi a Ha).
+  - destruct H as (_ & _ & _ & _ & _ & Hi & _). exact (Hi a Ha).
+Qed.
+
+Theorem apx_file_reads_back : forall o f eols fnl i q s al out,
+  valid_oracle oracle -> 1 <= thr ->
+  apx_file_ok f -> final_ok (apx_file_lines f) fnl ->
+  o_reader o = RApx ->
+  let bytes := render_lines (apx_file_lines f) eols fnl in
+  let labels := dedup str_eqb [] (decl_labels f) in
+  let F := apx_af (decl_labels f) (att_pairs f) in
+  validate o (apx_input bytes) = inr (i, q, s, al) ->
+  run oracle thr d fuel o (apx_input bytes) = Exit0 out ->
+  (forall id, id < length labels -> CliProofs.label_ok WApx (i_label i) (i_arg i) id) /\
+  exists oc, parse_answer WApx (i_arg i) q out = Some oc /\
+             out = render WApx (i_label i) oc /\ answer_ok q s (o_cert o) F al oc.
+Proof.
+  intros o f eols fnl i q s al out Hvalid Hthr Hok Hfin Hr bytes labels F V Hrun.
+  assert (Hdecl : forall p, In p (att_pairs f) -> In (fst p) (decl_labels f) /\ In (snd p) (decl_labels f))
+    by exact (proj2 (proj2 Hok)).
+  pose proof (apx_input_faithful f eols fnl Hok Hfin) as Hin. fold bytes in Hin.
+  destruct (validate_inr o _ i q s al V) as (_ & Hi & _ & _).
+  assert (Ei : i = apx_instance (apx_result (decl_labels f) (att_pairs f))) by congruence.
+  destruct (apx_labels_invertible (decl_labels f) (att_pairs f) Hdecl (decl_labels_ident f Hok)) as [_ Hlok].
+  fold labels in Hlok. rewrite <- Ei in Hlok.
+  split; [exact Hlok|].
+  destruct (apx_file_correct o f eols fnl i q s al Hvalid Hthr Hok Hfin Hr V) as ((Hargs & _) & _ & _ & H).
+  fold bytes labels F in Hargs, H. unfold run in Hrun.
+  destruct (run_traced oracle thr d fuel o (apx_input bytes)) as [[out'| |] log]; cbn [fst] in Hrun;
+    try discriminate.
+  injection Hrun as ->. destruct H as [(oc & Hout & Hoc) _]. exists oc.
+  split; [|split; [exact Hout|exact Hoc]]. rewrite Hout. apply parse_render.
+  - exact (answer_ok_kind _ _ _ _ _ _ Hoc).
+  - intros a Ha. apply Hlok. pose proof (answer_ok_args _ _ _ _ _ _ Hoc a Ha) as Hin'.
+    rewrite Hargs in Hin'. apply in_seq in Hin'. lia.
 Qed.
 
 (* an ill-formed Aspartix file: non-zero exit, no output, no SAT call *)
@@ -275,7 +367,50 @@ Proof.
   - vm_compute. reflexivity.
 Qed.
 
+(* the same with NON-ASCII identifiers: `a` + ARABIC-INDIC DIGIT THREE (U+0663, 2 bytes in UTF-8),
+   `b` + MATHEMATICAL BOLD DIGIT ONE (U+1D7CF, outside the BMP, 4 bytes), `c`; the string literals
+   below are the UTF-8 bytes of this source file ([B] maps the bytes of a Coq string) *)
+Definition ex_apx_u : apx_file :=
+  {| a_decls := [ex_arg [97%N; 1635%N]; ex_arg [98%N; 120783%N]; ex_arg [99%N]];
+     a_atts := [ex_att [97%N; 1635%N] [98%N; 120783%N]; ex_att [98%N; 120783%N] [97%N; 1635%N]] |}.
+Definition ex_apx_u_options : options :=
+  {| o_reader := RApx; o_problem := B "DS-PR"; o_arg := Some (B "b𝟏"); o_cert := true;
+     o_encoding := EncAbsent; o_logging_off := true |}.
+Lemma ex_apx_u_ok : apx_file_ok ex_apx_u.
+Proof.
+  split; [|split].
+  - repeat constructor; apply ex_arg_ok; reflexivity.
+  - repeat constructor; apply ex_att_ok; reflexivity.
+  - intros p [<-|[<-|[]]]; cbn; auto.
+Qed.
+Lemma ex_apx_u_final : final_ok (apx_file_lines ex_apx_u) true.
+Proof. intros H. discriminate. Qed.
+
+Example apx_example_unicode :
+  let bytes := render_lines (apx_file_lines ex_apx_u) [] true in
+  apx_file_ok ex_apx_u /\ final_ok (apx_file_lines ex_apx_u) true /\
+  bytes = B "arg(a٣)." ++ [10%N] ++ B "arg(b𝟏)." ++ [10%N] ++ B "arg(c)." ++ [10%N] ++
+          B "att(a٣,b𝟏)." ++ [10%N] ++ B "att(b𝟏,a٣)." ++ [10%N] /\
+  B "b𝟏" = [98; 240; 157; 159; 143]%N /\
+  (exists i, validate ex_apx_u_options (apx_input bytes) = inr (i, QDS, PR, [1])) /\
+  run SolverWholeEx.bf_oracle 1 CadicalLike 100 ex_apx_u_options (apx_input bytes)
+    = Exit0 (B "NO" ++ [10%N] ++ B "[a٣,c]" ++ [10%N]).
+Proof.
+  cbn zeta. split; [exact ex_apx_u_ok|]. split; [exact ex_apx_u_final|].
+  split; [vm_compute; reflexivity|]. split; [reflexivity|]. split.
+  - exists (apx_instance (apx_result (decl_labels ex_apx_u) (att_pairs ex_apx_u))).
+    rewrite (apx_input_faithful ex_apx_u [] true ex_apx_u_ok ex_apx_u_final).
+    assert (E1 : i_arg (apx_instance (apx_result (decl_labels ex_apx_u) (att_pairs ex_apx_u))) (B "b𝟏") = Some 1)
+      by (vm_compute; reflexivity).
+    assert (E2 : read_problem_string (B "DS-PR") = inr (QDS, PR)) by reflexivity.
+    unfold validate. cbn [ex_apx_u_options o_reader o_arg o_problem]. rewrite E1, E2. reflexivity.
+  - vm_compute. reflexivity.
+Qed.
+
 Print Assumptions apx_instance_facts.
+Print Assumptions apx_labels_invertible.
 Print Assumptions apx_file_correct.
+Print Assumptions apx_file_reads_back.
 Print Assumptions apx_file_rejected.
 Print Assumptions apx_example.
+Print Assumptions apx_example_unicode.
